@@ -139,6 +139,73 @@ def minimise(mod, scn, outcome, budget_s=60, n_procs=None):
     return cur, cur_out, rounds
 
 
+def _get_path(d, path):
+    for k in path:
+        d = d[k]
+    return d
+
+
+def _set_path(d, path, val):
+    for k in path[:-1]:
+        d = d[k]
+    d[path[-1]] = val
+
+
+def minimise_schedule(mod, scn, outcome, budget_s=40, n_procs=None):
+    """Second minimisation phase for schedule-dependent violations: replace the seeded schedule by the explicit
+    switch list of the failing run, then delta-debug that list (drop chunks of switches while the same clause with the
+    same signature keeps failing).  Needs mod.SCHED_PATH (where the schedule description lives in the scenario)."""
+    path = getattr(mod, "SCHED_PATH", None)
+    sched = (outcome or {}).get("schedule")
+    if not path or not sched or not sched.get("explicit"):
+        return scn, outcome, None
+    try:
+        cur_desc = _get_path(scn, path)
+    except (KeyError, IndexError, TypeError):
+        return scn, outcome, None
+    if not isinstance(cur_desc, dict) or cur_desc.get("mode") in ("fifo", "explicit", None):
+        return scn, outcome, None
+    want = _viol_key(outcome)
+    t_end = time.time() + budget_s
+    runner = _scenario_runner(mod)
+
+    def try_lists(lists):
+        cands = []
+        for lst in lists:
+            c = copy.deepcopy(scn)
+            _set_path(c, path, {"mode": "explicit", "explicit": lst, "lookahead": sched.get("lookahead", 2)})
+            cands.append(c)
+        results = {}
+        pool.run_forked(runner, list(enumerate(cands)), n_procs=n_procs, timeout=180,
+                        on_result=lambda k, o: results.__setitem__(k, o), deadline=t_end)
+        for i in range(len(cands)):
+            o = results.get(i)
+            if o and o.get("ok") and o["result"].get("status") == "violation" and _viol_key(o["result"]) == want:
+                return cands[i], o["result"], lists[i]
+        return None
+
+    full = [list(x) for x in sched["explicit"]]
+    got = try_lists([full])
+    if got is None:
+        return scn, outcome, None  # the explicit form does not reproduce it: keep the seeded description
+    best_scn, best_out, best = got
+    n0 = len(best)
+    chunk = max(1, len(best) // 2)
+    while chunk >= 1 and time.time() < t_end and best:
+        lists = []
+        for start in range(0, len(best), chunk):
+            lists.append(best[:start] + best[start + chunk:])
+        got = try_lists(lists[:32])
+        if got is not None:
+            best_scn, best_out, best = got
+            chunk = max(1, min(chunk, len(best) // 2)) if best else 0
+        else:
+            if chunk == 1:
+                break
+            chunk //= 2
+    return best_scn, best_out, {"switches_before": n0, "switches_after": len(best)}
+
+
 def write_replay(prop, scn, outcome, batch_seed, fingerprint, minimised_rounds):
     os.makedirs(REPLAY_DIR, exist_ok=True)
     name = f"{prop}-{digest([scn, outcome.get('clause')])[:12]}.json"
@@ -276,6 +343,9 @@ def run_check(mod, tier="quick", batch_seed=0, budget_s=None, n_procs=None, max_
         mbudget = float(os.environ.get("VERIF_MINIMISE_S", mbudget))
         start_scn = o.get("replay_scenario") or scns[k]
         scn_min, out_min, rounds = minimise(mod, start_scn, o, budget_s=mbudget, n_procs=n_procs)
+        scn_min, out_min, sched_info = minimise_schedule(mod, scn_min, out_min, budget_s=min(60, mbudget), n_procs=n_procs)
+        if sched_info:
+            print(f"schedule minimised: {sched_info['switches_before']} -> {sched_info['switches_after']} context switches")
         path = write_replay(prop, scn_min, out_min, batch_seed, fingerprint, rounds)
         # confirm in a fresh interpreter
         cp = subprocess.run(
